@@ -2,12 +2,12 @@ import OjgVerif.Props.C10Num
 /-! # C10 on the tight writer model — whole trees
 
 `C10_tree_partial`: for every option combination of the tight sen.Writer (OmitNil, OmitEmpty, HTML-safe or not) and
-every array or object built from `null`, booleans, int64 integers, floats (given by their strconv text), strings, arrays
+every array or object built from `null`, booleans, int64 and uint64 integers, floats (given by their strconv text), strings, arrays
 and objects to any depth, `sen.Parser.Parse` of
 the text `Sen.tightVal` produces (the model of `sen.String`/`sen.Bytes`/`sen.Write` with `Indent == 0`, compared byte
 for byte with the Go writer by the correspondence run) is the one document `nvVal o v`. Excluded by `admVal`: strings
 in value position that are one of the reserved words, strings and member names written bare with a leading sign (the
-two known findings C10-reserved-word, C10-leading-sign), json.Number leaves. Integers: all int64 — from
+two known findings C10-reserved-word, C10-leading-sign), json.Number leaves. Integers: all int64 and uint64 — from
 9223372036854775800 on the parser's integer fast loop answers json.Number (known finding C03sen-int19), with the same
 digits: that is what `nvVal` says there (`nvInt`, `value_int_all`). Floats: any literal of the RFC 8259 number grammar
 with a small integer part (`NumAdm`, Props/C10Num.lean) comes back as `Json.numConv` of its text (`value_flt`).
